@@ -11,6 +11,7 @@ const (
 	SBool = -1
 	SInt  = -2
 	SReal = -3
+	SFP   = -4 // IEEE-754 binary64 (only in fp_precise mode)
 )
 
 type Term struct {
